@@ -937,7 +937,7 @@ class Gen:
         """C04 / C17: EVERY prefix of key path strings, both formats: each look-ahead of the path scanners is taken at
         the very end of an exactly sized, unterminated buffer"""
         keys = ['\\\\?\\UNC\\host\\share\\x', '\\\\.\\unc\\h\\s', '//?/UNC/h/s/', '\\\\?\\C:\\dir\\..\\x', '\\\\.\\c|\\x', '\\\\host\\share\\a\\..\\b',
-                '//host/share/..', 'C:\\dir\\.\\..\\x y', 'c|/a/../..', '\\\\localhost\\C:\\x', '\\\\h\\s\\%41%', '/usr/../lib/./x%2', '/a/..', '/..', '/%2e%2E/', '\\\\?\\', '\\\\?\\UNC\\', '\\\\?\\UNC\\h', '\\\\?\\UNC\\h\\', '\\\\?\\UXC\\h\\s', '\\\\?\\UNX\\h\\s', '\\\\.\\uNcx\\h\\s', '\\\\?\\XNC\\h\\s']
+                '//host/share/..', 'C:\\dir\\.\\..\\x y', 'c|/a/../..', '\\\\localhost\\C:\\x', '\\\\h\\s\\%41%', '/usr/../lib/./x%2', '/a/..', '/..', '/%2e%2E/', '\\\\?\\', '\\\\?\\UNC\\', '\\\\?\\UNC\\h', '\\\\?\\UNC\\h\\', 'C:\\..', 'c|/..', '\\\\?\\C:\\..', '\\\\h\\s\\..', 'C:\\.', 'C:\\...', 'C:\\..x', '\\\\?\\UXC\\h\\s', '\\\\?\\UNX\\h\\s', '\\\\.\\uNcx\\h\\s', '\\\\?\\XNC\\h\\s']
         tot = 0
         for key in keys:
             n = len(key) + 1
